@@ -279,6 +279,61 @@ func decoderPerLoop(ctx *core.Ctx, r *RT, rule string) {
 					if c.Static != nil && c.Static.Signature.Recv() != nil && ssax.TypeNamed(c.Static.Signature.Recv().Type(), "", "TFramedTransport") && c.Static.Pkg == r.Pkg && g.Signature.Recv() != nil && ssax.TypeNamed(g.Signature.Recv().Type(), "", "TFramedTransport") {
 						continue // the decoder's own methods
 					}
+					// whose field? only an object that outlives the loop function counts: the
+					// loop's own receiver/parameters (or a global) — not a reader object the
+					// loop builds for itself and hands to its helpers
+					root := ssax.Strip(ld.X)
+					for {
+						switch y := root.(type) {
+						case *ssa.FieldAddr:
+							root = ssax.Strip(y.X)
+							continue
+						case *ssa.UnOp:
+							if y.Op == token.MUL {
+								root = ssax.Strip(y.X)
+								continue
+							}
+						}
+						break
+					}
+					if pr, isPar := root.(*ssa.Parameter); isPar && g != fn {
+						long := false
+						for _, c2 := range ssax.Calls(fn) {
+							if c2.Static != g {
+								continue
+							}
+							for i, q := range g.Params {
+								if q != pr || i >= len(c2.Common.Args) {
+									continue
+								}
+								ar := ssax.Strip(c2.Common.Args[i])
+								for {
+									switch y := ar.(type) {
+									case *ssa.FieldAddr:
+										ar = ssax.Strip(y.X)
+										continue
+									case *ssa.UnOp:
+										if y.Op == token.MUL {
+											ar = ssax.Strip(y.X)
+											continue
+										}
+									}
+									break
+								}
+								switch ar.(type) {
+								case *ssa.Parameter, *ssa.Global, *ssa.FreeVar:
+									long = true
+								}
+							}
+						}
+						if !long {
+							continue
+						}
+					} else if _, isAlloc := root.(*ssa.Alloc); isAlloc {
+						continue
+					} else if _, isCall := root.(*ssa.Call); isCall {
+						continue
+					}
 					seenField[f] = true
 					n++
 					ctx.Check(false, rule, ssax.Name(fn)+" › frame decoder lives as long as its read loop (field "+f+")", r.IPos(c.Instr), "",
